@@ -246,6 +246,17 @@ func c13HandScenarios() []*c13Scen {
 			id + "/types.go": types, id + "/setup.go": setup, id + "/a_part.go": part("PartA", 0), id + "/b_part.go": part("PartB", 1),
 			id + "/m_part.go": part("PartC", 2), id + "/z_part.go": part("PartD", 3)}})
 	}
+	// every kind of source expression in the "typecast ... is not implemented(yet)" warning and in "no assignment"
+	// warnings: a plain field, a converter call, a getter call, a String() call, an additional argument - diagnostics
+	// name expressions, never addresses
+	{
+		id := "hx11"
+		types := "package sc\n\ntype Lv int\n\nfunc (l Lv) String() string { return \"lv\" }\n\ntype TS struct {\n\tIntro string\n\tRaw   string\n\tL     Lv\n\tg     string\n}\n\n" +
+			"func (s *TS) Get() string { return s.g }\n\ntype TD struct {\n\tIntro   []byte\n\tBody    []byte\n\tG       []byte\n\tS       []byte\n\tX       []byte\n\tMissing int\n}\n\nfunc Clean(s string) string { return s }\n"
+		setup := "//go:build convergen\n\npackage sc\n\ntype Convergen interface {\n\t// :typecast\n\t// :stringer\n\t// :conv Clean Raw Body\n\t// :map Get() G\n\t// :map L S\n\t// :map $2 X\n\tWarn(*TS, string) *TD\n}\n"
+		r = append(r, &c13Scen{ID: id, Kind: "every-warning-operand-kind", PkgRel: id, SetupRel: id + "/setup.go", NMethods: 1, Files: map[string]string{
+			id + "/types.go": types, id + "/setup.go": setup}})
+	}
 	return r
 }
 
